@@ -92,6 +92,14 @@ def catalog():
             "threads": [[sub("f0"), ["sleep", 3.0]],
                         [["sleep", 0.5], sub("s0"), ["runall", "ex"], shutdown_op(True, None), ["threads"], sub("after")]],
             "settle": 2, "final": [["runall", "ex"], ["sleep", 1]]}}
+    # shutdown(cancel_futures=True) of a (wrapped) thread pool cancels the queued work items, whose done-callbacks run inside the
+    # pool's shutdown; one of them submits follow-up work to the same executor: it must be refused, not block
+    for names in ([], ["map"], ["timeout"]):
+        out["cancel-futures-callback-submits/" + ("+".join(names) or "pool")] = {"prog": {
+            "setup": [build(names, {"kind": "pool", "workers": 1}), sub("p0", [["gate", "g", ["tag"]]]), sub("p1"), sub("p2"),
+                      ["add_cb", "p1", "cb1", ["op", sub("n0")]], ["sleep", 0.25]],
+            "threads": [[["sleep", 0.5], shutdown_op(False, True), ["open", "g"], ["sleep", 1.0], ["threads"], sub("after")]],
+            "settle": 2, "final": [["open", "g"]]}}
     for names in (["retry", "poll"], ["throttle", "retry", "cos"], ["timeout", "map", "throttle"], ["poll", "flat_map", "retry", "timeout"]):
         out["chain/" + "+".join(names)] = {"prog": {
             "setup": [build(names, {"kind": "pool", "workers": 1}), sub("p0", [["raise", "E0"], ["tag"]]), sub("p1"), ["sleep", 0.25]],
